@@ -1,1 +1,53 @@
-Require Import RIO.Base.
+(* C03 — body filtering is invariant under chunking of the response stream.
+   Statements only; proofs in RIO.ChainProofs.
+   What is proved for ALL bodies, filter lists and chunkings: (1) the chain discipline of FilterBodyAction
+   (early break on empty data, end cascade) preserves chunk invariance of its stages: if every stage satisfies
+   the SPLIT LAW (feeding c1 then c2 = feeding c1 ++ c2: same state, concatenated output) then the whole chain's
+   output (filtered chunks ++ end) is that of the single chunk; (2) the text stages satisfy the law, so chains of
+   text filters are chunk invariant unconditionally.  For the HTML stage the split law is the restart property of
+   the tokenizer-driven filter; it is a HYPOTHESIS of C03_chain (named, not an axiom) and is what the
+   correspondence run exercises on the crate (every chunking is compared with the single chunk). *)
+Require Import RIO.Base RIO.TokMonad RIO.HtmlTok RIO.BodyText RIO.HtmlFilter RIO.ChainProofs RIO.BodyProofs.
+Close Scope N_scope.
+
+(* (1) the chain preserves chunk invariance *)
+Theorem C03_chain : forall lower sel ctok fs c cs,
+  (forall st, In st (stages_of ctok fs) -> split_law stage (stage_tf lower sel) st) ->
+  body_run lower sel ctok fs (c :: cs) = body_run lower sel ctok fs [concat (c :: cs)].
+Proof.
+  intros lower sel ctok fs c cs H. rewrite !body_run_total.
+  apply (run_chunk_invariant stage (stage_tf lower sel) stage_te (fun st => In st (stages_of ctok fs))).
+  - exact H.
+  - apply Forall_forall. auto.
+Qed.
+
+(* (2) text stages satisfy the split law *)
+Theorem C03_text_stage_law : forall lower sel t, split_law stage (stage_tf lower sel) (StText t).
+Proof. exact text_stage_split. Qed.
+
+(* hence: any list of text filters, any body (valid UTF-8 or not), any chunking incl. empty chunks *)
+Theorem C03_text_filters : forall lower sel ctok fs c cs,
+  (forall f, In f fs -> match f with BFText _ _ => True | BFHtml _ => False end) ->
+  body_run lower sel ctok fs (c :: cs) = body_run lower sel ctok fs [concat (c :: cs)].
+Proof.
+  intros lower sel ctok fs c cs Hall. apply C03_chain. intros st Hst.
+  assert (Hst' : exists t, st = StText t).
+  { clear - Hall Hst. induction fs as [|f fs IH]; cbn in Hst; [destruct Hst|].
+    destruct f as [a co|h]; [|exfalso; apply (Hall (BFHtml h)); left; reflexivity].
+    cbn in Hst. destruct Hst as [<-|Hst]; [eexists; reflexivity|]. apply IH; [intros g Hg; apply Hall; right; exact Hg|exact Hst]. }
+  destruct Hst' as [t ->]. apply C03_text_stage_law.
+Qed.
+
+(* Non-vacuity of the hypothesis of C03_chain on an HTML stage: a concrete document cut inside a script, inside a
+   comment and inside a multi-byte character (the three defects repaired in the crate) *)
+Example C03_example_html :
+  let lw := map ascii_lower in
+  let f := [BFHtml {| hf_kind := HAppendChild; hf_value := [60;105;62]%N; hf_tree := [[104;116;109;108]%N; [98;111;100;121]%N]; hf_css := None |}] in
+  let doc := [60;104;116;109;108;62;60;98;111;100;121;62;60;115;99;114;105;112;116;62;34;60;47;98;111;100;121;62;34;60;47;115;99;114;105;112;116;62;60;33;45;45;32;60;47;98;111;100;121;62;32;45;45;62;195;169;60;47;98;111;100;121;62;60;47;104;116;109;108;62]%N in
+  forallb (fun k => str_eqb (body_run lw (fun _ _ => false) true f [firstn k doc; skipn k doc]) (body_run lw (fun _ _ => false) true f [doc]))
+          (seq 0 (S (length doc))) = true.
+Proof. vm_compute. reflexivity. Qed.
+
+Print Assumptions C03_chain.
+Print Assumptions C03_text_stage_law.
+Print Assumptions C03_text_filters.
